@@ -650,6 +650,7 @@ func formatEnvVarsForHelp(envVars string) string {
 func (c *Cmd) parse(args []string, entry, inFlow, outFlow *flow.Step) error {
 	helpIndex := c.helpIndex(args)
 	nargsLen := c.getOptsAndArgs(args)
+	verifEmit("level", c, args, nargsLen, helpIndex, nil)
 
 	if helpIndex >= 0 && helpIndex < nargsLen {
 		c.PrintLongHelp()
@@ -676,11 +677,13 @@ func (c *Cmd) parse(args []string, entry, inFlow, outFlow *flow.Step) error {
 	}
 
 	if err := c.fsm.Parse(args[:nargsLen]); err != nil {
+		verifEmit("reject", c, args, nargsLen, helpIndex, err)
 		fmt.Fprintf(stdErr, "Error: %s\n", err.Error())
 		c.PrintHelp()
 		c.onError(err)
 		return err
 	}
+	verifEmit("accept", c, args, nargsLen, helpIndex, nil)
 
 	newInFlow := &flow.Step{
 		Do:     c.Before,
@@ -709,6 +712,7 @@ func (c *Cmd) parse(args []string, entry, inFlow, outFlow *flow.Step) error {
 				Exiter:  exiter,
 			}
 
+			verifEmit("run", c, args, nargsLen, helpIndex, nil)
 			entry.Run(nil)
 			return nil
 		}
